@@ -97,7 +97,7 @@ func (s *sim) generate() (Action, bool) {
 	add(Action{K: "run_script"}, w["run_script"])
 	add(Action{K: "del_cache"}, w["del_cache"])
 	add(Action{K: "regen_cache"}, w["regen"])
-	add(Action{K: "burst_c", N: r.Range(2, 6)}, w["burst"])
+	add(Action{K: "burst_c", N: r.Range(2, 6), Which: []string{"", "hold"}[r.Intn(2)]}, w["burst"])
 	add(Action{K: "probe"}, w["probe"])
 	add(Action{K: "sleep", Ms: []int{1, 100, 1900, 2100, 5000, 60000}[r.Intn(6)]}, w["sleep"])
 	live := s.liveSession()
